@@ -115,19 +115,44 @@ func ruleC12Shapes(c *ctx.Ctx, r *core.Reporter) {
 			r.Check(armOf(fd, lab) != nil, "shape:"+fd.Name.Name+":"+lab, c.Pos(fd.Pos()), fd.Name.Name+" has an arm for "+lab)
 		}
 	}
-	// overlay side records
-	s := squash(nodeString(c, ov.Body))
-	r.Check(strings.Contains(s, "overrides[k]=oi") && strings.Contains(s, "k:=astutil.FuncKey(d)"), "overlay:func-keyed", c.Pos(ov.Pos()), "an overlay function is recorded under its receiver-qualified key")
-	r.Check(strings.Contains(s, "overrides[s.Name.Name]=overrideInfo{purgeMethods:purgeSpec,}") || strings.Contains(s, "overrides[s.Name.Name]=overrideInfo{purgeMethods:purgeSpec}"), "overlay:type-recorded", c.Pos(ov.Pos()), "an overlay type is recorded, with purgeMethods when it is purged")
-	r.Check(strings.Contains(s, "for_,name:=ranges.Names{overrides[name.Name]=overrideInfo{}}"), "overlay:every-name-of-value-spec", c.Pos(ov.Pos()), "every name of a multi-name var/const specification is recorded")
-	r.Check(strings.Contains(s, "ifastutil.OverrideSignature(d){oi.overrideSignature=dpurgeDecl=true}"), "overlay:override-signature-removes-stub", c.Pos(ov.Pos()), "an override-signature stub is recorded and removed from the overlay")
+	// overlay side records (patterns over the syntax tree: local names are free, surrounding statements too)
+	pat := func(fd *ast.FuncDecl, p string) bool { return hasGoPattern(fd.Body, p) }
+	r.Check(pat(ov, `µk := astutil.FuncKey(µd); µµa; µo[µk] = µoi`), "overlay:func-keyed", c.Pos(ov.Pos()), "an overlay function is recorded under its receiver-qualified key")
+	r.Check(pat(ov, `µo[µs.Name.Name] = overrideInfo{purgeMethods: µp}`), "overlay:type-recorded", c.Pos(ov.Pos()), "an overlay type is recorded, with purgeMethods when it is purged")
+	r.Check(pat(ov, `for _, µn := range µs.Names { µµa; µo[µn.Name] = overrideInfo{} }`), "overlay:every-name-of-value-spec", c.Pos(ov.Pos()), "every name of a multi-name var/const specification is recorded")
+	r.Check(pat(ov, "for _, µn := range µs.Names { if µn.Name == `_` { µµa; continue }; µµb }") || pat(ov, "for _, µn := range µs.Names { if µn.Name != `_` { µµa } }"), "overlay:blank-is-not-an-override", c.Pos(ov.Pos()), "the blank identifier in an overlay value specification is not recorded as an override (it would delete every blank declaration of the original, with the side effects of their initialisers)")
+	r.Check(pat(ov, `if astutil.OverrideSignature(µd) { µoi.overrideSignature = µd; µpurge = true }`), "overlay:override-signature-removes-stub", c.Pos(ov.Pos()), "an override-signature stub is recorded and removed from the overlay")
 	// original side
-	t := squash(nodeString(c, og.Body))
-	r.Check(strings.Contains(t, "ifinfo.keepOriginal{") && strings.Contains(t, "removeFunc=false"), "original:keep-original", c.Pos(og.Pos()), "keep-original renames instead of removing")
-	r.Check(strings.Contains(t, "d.Recv=overSig.Recv") && strings.Contains(t, "d.Type.TypeParams=overSig.Type.TypeParams") && strings.Contains(t, "d.Type.Params=overSig.Type.Params") && strings.Contains(t, "d.Type.Results=overSig.Type.Results"), "original:override-signature", c.Pos(og.Pos()), "override-signature copies receiver, type parameters, parameters and results onto the original body")
-	r.Check(strings.Contains(t, "ifinfo,ok:=overrides[recvKey];ok&&info.purgeMethods{anyChange=truefile.Decls[i]=nil}"), "original:purged-type-methods", c.Pos(og.Pos()), "methods of a purged type are removed from the original")
-	r.Check(strings.Contains(t, "iflen(s.Names)==len(s.Values){") && strings.Contains(t, "s.Names[k]=nils.Values[k]=nil"), "original:multi-value", c.Pos(og.Pos()), "in `var a, b = x, y` an overridden name is removed together with its own value")
-	r.Check(strings.Contains(t, "name.Name=`_`") && strings.Contains(t, "ifremoveSpec{anyChange=trued.Specs[j]=nil}"), "original:single-value", c.Pos(og.Pos()), "in `var a, b = f()` overridden names are blanked and the specification is removed only when every name is blank")
+	r.Check(pat(og, `if µinfo.keepOriginal { µµa; µrm = false }`), "original:keep-original", c.Pos(og.Pos()), "keep-original renames instead of removing")
+	r.Check(pat(og, `µd.Recv = µo.Recv`) && pat(og, `µd.Type.TypeParams = µo.Type.TypeParams`) && pat(og, `µd.Type.Params = µo.Type.Params`) && pat(og, `µd.Type.Results = µo.Type.Results`), "original:override-signature", c.Pos(og.Pos()), "override-signature copies receiver, type parameters, parameters and results onto the original body")
+	r.Check(pat(og, `if µinfo, µok := µo[µk]; µok && µinfo.purgeMethods { µµa; µf.Decls[µi] = nil }`), "original:purged-type-methods", c.Pos(og.Pos()), "methods of a purged type are removed from the original")
+	r.Check(pat(og, `if len(µs.Names) == len(µs.Values) { µµa } else { µµb }`) && pat(og, `µs.Names[µk] = nil; µs.Values[µk] = nil`), "original:multi-value", c.Pos(og.Pos()), "in `var a, b = x, y` an overridden name is removed together with its own value")
+	r.Check(pat(og, "µn.Name = `_`") && pat(og, `if µall { µµa; µd.Specs[µj] = nil }`), "original:single-value", c.Pos(og.Pos()), "in `var a, b = f()` overridden names are blanked and the specification is removed only when every name is blank")
+	// constant groups: a specification that later ones depend on (implicit repetition, iota) keeps its place
+	{
+		ok := false
+		for _, m := range findGoPattern(og.Body, `if µd.Tok == token.CONST && µdep { µµbody }`) {
+			if is, isIf := m.Node.(*ast.IfStmt); isIf && hasGoPattern(is.Body, "µn.Name = `_`") && len(nilStoresIn(is.Body)) == 0 {
+				ok = true
+			}
+		}
+		r.Check(ok, "original:const-group-keeps-positions", c.Pos(og.Pos()), "in a constant group whose later specifications repeat earlier expressions or use iota, an overridden constant is blanked, not removed (removal shifts iota and orphans the implicit repetitions)")
+	}
+}
+
+func nilStoresIn(n ast.Node) []*ast.AssignStmt {
+	var out []*ast.AssignStmt
+	ast.Inspect(n, func(x ast.Node) bool {
+		if as, ok := x.(*ast.AssignStmt); ok {
+			for i, l := range as.Lhs {
+				if _, isIx := l.(*ast.IndexExpr); isIx && i < len(as.Rhs) && exprStr(as.Rhs[i]) == "nil" {
+					out = append(out, as)
+				}
+			}
+		}
+		return true
+	})
+	return out
 }
 
 // nilStores lists `X[...] = nil` statements in fd.
@@ -286,6 +311,22 @@ func ruleC12Finalize(c *ctx.Ctx, r *core.Reporter) {
 			return true
 		})
 		r.Check(!early, "pruneImports:no-return-after-mark", c.Pos(pi.Pos()), "no return statement follows the first removal mark")
+	}
+	// comments: directives may stand alone (`//go:linkname a b` separated from any declaration). The list of
+	// comments of a rewritten file must therefore be derived from the previous list, not only from the
+	// comment groups still attached to declarations
+	if fr := c.FuncDecl("build", "finalizeRemovals"); fr != nil {
+		resets := findGoPattern(fr.Body, `µf.Comments = nil`)
+		usesOld := false
+		if len(resets) > 0 {
+			ast.Inspect(fr.Body, func(n ast.Node) bool {
+				if sel, ok := n.(*ast.SelectorExpr); ok && sel.Sel.Name == "Comments" && sel.Pos() < resets[0].Node.Pos() {
+					usesOld = true
+				}
+				return true
+			})
+		}
+		r.Check(len(resets) == 0 || usesOld, "comments:floating-directives-kept", c.Pos(fr.Pos()), "finalizeRemovals rebuilds file.Comments without consulting the previous list: a free-standing directive comment of a rewritten file is lost")
 	}
 	// finalizeRemovals squeezes Decls, Specs, Names, Values, Imports
 	if fr := c.FuncDecl("build", "finalizeRemovals"); fr != nil {
